@@ -6,6 +6,7 @@ import NetflowModel.Preds
 import NetflowModel.Wire
 import NetflowModel.Generated
 import NetflowModel.Json
+import NetflowModel.JsonText
 namespace Netflow.Preds
 open Netflow
 
@@ -68,13 +69,30 @@ partial def jmatch : JVal → Lean.Json → Bool
       | none => false
   | _, _ => false
 
-/-- one packet's serialisation result as reported by the harness: {"ok": text} | "err" | "panic" | "nondeterministic" -/
+/-- is the float with these 64 bits finite? -/
+def f64Finite (bits : Nat) : Bool :=
+  let f := Float.ofBits bits.toUInt64
+  !(f.isNaN || f.isInf)
+
+/-- does the number literal denote exactly this finite float?  (machine float reader; the reader drops the sign of -0.0) -/
+def f64Lit (bits : Nat) (lit : List Char) : Bool :=
+  let f := Float.ofBits bits.toUInt64
+  match Lean.Json.parse (String.ofList lit) with
+  | .ok (.num jn) => if f == 0.0 then jn.mantissa == 0 else jn.toFloat.toBits == f.toBits
+  | _ => false
+
+/-- one packet's serialisation result as reported by the harness: {"ok": text} | "err" | "panic" | "nondeterministic".
+    The text must be ONE well-formed JSON value for the model's reader `JText.parseJ` and for Lean's own reader, and the
+    tree read from it must match `toJ` of the decoded packet member for member IN ORDER (`JText.jmatchT`). -/
 def jsonOk (c : Config) (p : Packet) (j : Lean.Json) : Bool :=
   match j.getObjValAs? String "ok" with
   | .ok text =>
-    match Lean.Json.parse text with
-    | .ok tree => jmatch (toJ c jnames p) tree
-    | .error _ => false
+    (match Lean.Json.parse text with
+     | .ok tree => jmatch (toJ c jnames p) tree
+     | .error _ => false) &&
+    (match JText.parseJ text.toList with
+     | some t => JText.jmatchT f64Finite f64Lit (toJ c jnames p) t
+     | none => false)
   | .error _ => false
 
 def jsonAllOk (c : Config) (pkts : List Packet) (js : List Lean.Json) : Bool :=
